@@ -260,8 +260,17 @@ impl Server {
             return;
         }
 
+        // A pending handshake reserves a slot among the active connections: it is promoted
+        // without any further check once its ACK arrives, so it has to be counted here
+        let reserved_count = self.clients.values().filter(|client_rc| {
+            match client_rc.borrow().state {
+                remote_client::State::Pending(_) | remote_client::State::Active(_) => true,
+                _ => false,
+            }
+        }).count();
+
         if self.clients.len() >= self.config.max_total_connections
-            && self.active_clients.len() >= self.config.max_active_connections
+            || reserved_count >= self.config.max_active_connections
         {
             // No room in the inn
             let reply = frame::Frame::HandshakeErrorFrame(frame::HandshakeErrorFrame {
